@@ -265,4 +265,81 @@ func runC08(r *an.Run) {
 				o.FailAt("AckSettleFails#sites", "", "expected at least 4 acknowledgement sites, found %d", n)
 			}
 		})
+
+	r.Obl("packets-carry-their-forwarding-references", "ROLE",
+		"every switch packet built in htlcswitch carries the durable reference its handling depends on: an add built by the link from a forwarding package has sourceRef; a locally generated failure derived from an add packet (copying its incoming channel and HTLC id) copies that packet's sourceRef and circuit; a settle or fail re-created from a forwarding package's SettleFails has destRef; Switch.reforwardResponses scans every channel (FetchAllChannels, which includes channels waiting to close) that is not pending, and re-forwards the settle/fails of each of its forwarding packages",
+		"a response without its reference is committed without acknowledging the add (the add is replayed and forwarded again after a restart) or without the downstream reference (the response is retransmitted forever); responses of a closing channel that are not re-forwarded leave the upstream HTLC unsettled although downstream was paid", 12,
+		func(o *an.Obl) {
+			T := p.LookupType("htlcswitch", "htlcPacket")
+			n := 0
+			for _, cl := range p.CompositeLitsOf(T) {
+				if cl.Fn == nil {
+					continue
+				}
+				lit := cl.Node.(*ast.CompositeLit)
+				f := cl.Fn
+				kv := map[string]ast.Expr{}
+				for _, el := range lit.Elts {
+					if k, ok := el.(*ast.KeyValueExpr); ok {
+						kv[an.Text(k.Key)] = k.Value
+					}
+				}
+				n++
+				keys := []string{}
+				for k := range kv {
+					keys = append(keys, k)
+				}
+				sortStrings(keys)
+				o.Site("%s in %s: %v", cl.Where, f.ID, keys)
+				htlcT := ""
+				if h, ok := kv["htlc"]; ok {
+					htlcT = an.TypeID(f.Info().TypeOf(h))
+				}
+				// derived from another packet?
+				if inc, ok := kv["incomingChanID"]; ok {
+					if sel, ok := inc.(*ast.SelectorExpr); ok && sel.Sel.Name == "incomingChanID" {
+						src := an.Text(sel.X)
+						for _, need := range []string{"sourceRef", "circuit", "incomingHTLCID"} {
+							v, has := kv[need]
+							if !has || an.Text(v) != src+"."+need {
+								o.FailAt(f.ID+"#derived-packet-"+need, cl.Where, "the packet derived from %s copies its incoming channel but not %s.%s", src, src, need)
+							}
+						}
+					}
+				}
+				if strings.HasSuffix(htlcT, "UpdateAddHTLC") && strings.Contains(f.ID, "channelLink.") {
+					if _, has := kv["sourceRef"]; !has {
+						o.FailAt(f.ID+"#add-without-sourceRef", cl.Where, "an add handed to the switch has no sourceRef")
+					}
+				}
+				if d, has := kv["htlc"]; has && an.Text(d) == "msg" {
+					// re-created from a forwarding package entry
+					if _, hasRef := kv["destRef"]; !hasRef {
+						o.FailAt(f.ID+"#response-without-destRef", cl.Where, "a settle/fail re-created from a forwarding package has no destRef")
+					}
+				}
+			}
+			if n < 12 {
+				o.FailAt("htlcPacket#literals", "", "expected at least 12 packet constructions, found %d", n)
+			}
+			f := p.Func(hs + "Switch.reforwardResponses")
+			fa := f.Calls(an.CalleeNamed("FetchAllChannels"), false)
+			if need(o, f, "cfg.FetchAllChannels", fa, 1) {
+				loopVisitsAll(o, f, `FetchAllChannels|openChannels`)
+				rs := f.Calls(an.CalleeIs(hs+"Switch.reforwardSettleFails"), false)
+				ld := f.Calls(an.CalleeIs(hs+"Switch.loadChannelFwdPkgs"), false)
+				if need(o, f, "reforwardSettleFails", rs, 1) && need(o, f, "loadChannelFwdPkgs", ld, 1) {
+					mustPass(o, f, "loadChannelFwdPkgs", ld, an.OkErrNil, rs)
+					// every non-pending channel with a real id is processed
+					everyIterationOr(o, f, `FetchAllChannels|openChannels`, rs, an.AnyOf("pending channel or unassigned id",
+						an.Truth(an.FieldPath(nil, "IsPending"), true, ""),
+						an.Cmp(an.Any(), an.EQ, an.PkgVar("htlcswitch/hop", "Source"), "")), "reforwardSettleFails")
+				}
+			}
+			for _, s := range f.AllCalls(false) {
+				if id := an.CalleeID(f.Info(), s.Node.(*ast.CallExpr)); strings.HasSuffix(id, ".FetchAllOpenChannels") {
+					o.FailAt(f.ID+"#open-only", s.Where(), "reforwardResponses scans only channels in the default state; responses of channels waiting to close must be re-forwarded too")
+				}
+			}
+		})
 }
